@@ -10,3 +10,5 @@ def register(reg):
     # paths - their strongest postcondition - instead of splitting the caller's path at every digit
     reg.merged_calls.add(SHIFT)
     reg.merged_calls.add(FLIPS)
+    reg.merged_calls.add("a5.core.hilbert.quaternary_to_kj")
+    reg.merged_calls.add("a5.core.hilbert.ij_to_quaternary")
